@@ -781,6 +781,10 @@ theorem step_preserves {n n' : Node} {op : Op} {acc : Bool} (hI : Inv n) (hf : F
       | different => simp only [hr] at hs; cases hs; exact hI0
       | declined => simp only [hr] at hs; cases hs; exact this
       | panic => simp [hr] at hs
+  | decline h inv =>
+    simp only [Node.exec] at hs
+    cases hs
+    exact hI0
   | fulfill h =>
     simp only [Node.exec] at hs
     cases hs
